@@ -78,11 +78,11 @@ def kv_plus(kv, u, c):
 
 
 def kv_minus(kv, u, c):
-    """kv with the c entries closest to u removed (they must be within 1e-12 of u)."""
+    """kv with the c entries closest to u removed (they must be within the library's knot identification tolerance 1e-7 of u)."""
     out = list(kv)
     for _ in range(c):
         i = min(range(len(out)), key=lambda j: abs(out[j] - u))
-        if abs(out[i] - u) > 1e-12:
+        if abs(out[i] - u) > 1e-7:
             return None
         out.pop(i)
     return out
